@@ -15,7 +15,7 @@ CHECKS = {
     design="4/C02"),
  "C05": dict(
     technique="property-based testing: exhaustive (fixed trees x all patterns of <=2 components) + proptest (tree, word) pairs on the virtual file system against an independent glob model built on the reference pattern matcher",
-    text="Exploration: 4-6 fixed trees x every pattern of <=2 components over a 26-54 component alphabet, plus 150k (quick) / 5M (thorough) random (tree, word) pairs with symlinks, unsearchable directories, metacharacter and backslash names, quoted segments, parts from variables, and tilde-expansion prefixes with special characters in HOME; the probe's argument list must equal the model's sorted list of existing matching paths (or the unchanged word). Bounded.",
+    text="Exploration: 4-6 fixed trees x every pattern of <=2 components over a 26-54 component alphabet, plus 150k (quick) / 5M (thorough) random (tree, word) pairs with symlinks, unsearchable directories, metacharacter and backslash names, quoted segments, parts from variables, and tilde-expansion prefixes with special characters in HOME; the probe's argument list must equal the model's sorted list of existing matching paths (or the unchanged word). Bounded. Words may contain empty quoted segments; a backslash that ends an unquoted expansion with nothing left to escape must leave the field unchanged (every other trailing-backslash case stays skipped as unspecified).",
     note="Trusted: harness/src/model/glob.rs + model/fnmatch.rs. Classes the simulated OS cannot express (symlink in the middle of a path, unreadable directories) are skipped and counted; one simulator deviation is an open known finding (vfs-dot-in-unsearchable-dir).",
     design="4/C05"),
  "C06": dict(
@@ -30,7 +30,7 @@ CHECKS = {
     design="4/C07"),
  "C08": dict(
     technique="property-based testing: exhaustive (subshell kind x mutator) grid + proptest mutator sequences under FIFO and seeded schedules; invariant oracle on full parent snapshots before/after and on the child's view at entry",
-    text="Exploration: 10 subshell kinds x 67 state mutators x 3 schedules exhaustively, plus random sequences of 1-5 mutators under random schedules with preemption, also nested in an outer subshell that has mutated its own state, with the subshell ending by falling off the end / exit / death by SIGTERM, SIGINT or SIGQUIT, in non-interactive and interactive (-i, script on stdin) shells; the parent's complete observable state (variables+attributes, functions, aliases, options, positional parameters, traps, cwd, umask, descriptor table by open-file-description identity, signal dispositions) must be identical before and after; the child's view at entry must equal it except for reset command traps. Bounded. Round D/E additions: the subshell command may be started from inside a trap action while another trapped signal has been caught but not yet handled (its trap must be reset in the child like any other, and its action must run exactly once, in the parent).",
+    text="Exploration: 10 subshell kinds x 67 state mutators x 3 schedules exhaustively, plus random sequences of 1-5 mutators under random schedules with preemption, also nested in an outer subshell that has mutated its own state, with the subshell ending by falling off the end / exit / death by SIGTERM, SIGINT or SIGQUIT, in non-interactive and interactive (-i, script on stdin) shells; the parent's complete observable state (variables+attributes, functions, aliases, options, positional parameters, traps, cwd, umask, descriptor table by open-file-description identity, signal dispositions) must be identical before and after; the child's view at entry must equal it except for reset command traps. Bounded. Round D/E additions: the subshell command may be started from inside a trap action while another trapped signal has been caught but not yet handled (its trap must be reset in the child like any other, and its action must run exactly once, in the parent). In the nested form the way the inner subshell ends (exit, death by a signal) must not keep the outer subshell from reaching its next command (checked by re-running the case with the inner body falling off its end).",
     note="Trusted: the snapshot probe (probes.rs) and process inspection (vsys.rs). `$?`, `$!`, the job list and the variable assigned from $( ) are excluded by construction; SIGCHLD handling installed by the shell itself, and the job-control stop signals an interactive shell's subshells keep ignoring, are not counted as differences.",
     design="4/C08"),
  "C09": dict(
@@ -40,7 +40,7 @@ CHECKS = {
     design="4/C09", level="fault_enumeration"),
  "C10": dict(
     technique="property-based testing: proptest programs with planted failures of every shell-error category and errexit toggles, run on the virtual shell vs a reference interpreter with the errexit rule and the shell-error table; EXIT-trap probe counted; the same programs also through the real yash3 start-up code",
-    text="Exploration: the C02 generator plus failing commands of each documented category, errexit on/off/toggled, EXIT trap; trace up to the abort point, nothing after it, status (exact where documented, else non-zero), EXIT probe exactly once and last. Bounded random search with shrinking.",
+    text="Exploration: the C02 generator plus failing commands of each documented category, errexit on/off/toggled, EXIT trap; trace up to the abort point, nothing after it, status (exact where documented, else non-zero), EXIT probe exactly once and last. Bounded random search with shrinking. Redirection errors are rendered with several causes (missing file, descriptor number beyond the limit of 256 fixed for these runs, closed source descriptor).",
     note="Trusted: reference interpreter (errexit = option on and no dynamically enclosing condition context; shell-error table from docs/src/termination.md). Syntax-error categories are covered by C18, not here.",
     design="4/C10"),
  "C15": dict(
@@ -54,7 +54,7 @@ CHECKS = {
     note="Trusted: the two models (c16a.rs, c16b.rs). Whether a prefix assignment of a special built-in sets the export attribute is treated as unspecified (manual and code disagree; POSIX leaves it open). Undocumented interactions of function bodies with a caller's temporary assignment are skipped and counted.",
     design="4/C16"), "C03": dict(
     technique="property-based testing: exhaustive small-tree enumeration + proptest random trees/token soup against an i128 reference evaluator; metamorphic constant-vs-variable relation; thorough tier adds libFuzzer targets (c03_text: raw expression text, c03_tree: byte-decoded expression trees) over the same oracles, quick tier replays their corpus",
-    text="Exploration: every expression tree of depth<=2 over all operators on boundary operands (quick: depth 1 complete, depth 2 strided; thorough: complete), millions of random deeper trees, token soup and arbitrary text, each compared with an independent exact evaluator (value, final variables, or 'must be an error'). Bounded search, not a proof: absence of wrong results is only shown for what was generated.",
+    text="Exploration: every expression tree of depth<=2 over all operators on boundary operands (quick: depth 1 complete, depth 2 strided; thorough: complete), millions of random deeper trees, token soup and arbitrary text, each compared with an independent exact evaluator (value, final variables, or 'must be an error'). Bounded search, not a proof: absence of wrong results is only shown for what was generated. The constant-through-a-variable relation also covers signed octal / hexadecimal texts and superfluous leading zeros (`-010`, `+0X1F`, `-08`).",
     note="Trusted: the harness' reference evaluator (C semantics on i128) and renderer. Unsequenced side effects, parenthesised lvalues and non-constant variable texts are skipped as unspecified.",
     design="4/C03"),
  "C04": dict(
@@ -64,7 +64,7 @@ CHECKS = {
     design="4/C04"),
  "C11": dict(
     technique="property-based testing / stateful: exhaustive + proptest operation histories on TrapSet over the real SignalSystem implementation against a per-signal reference merge; proptest scripts with a trapped signal delivered by self-kill at every position and asynchronously by the harness scheduler",
-    text="Exploration: every history of <=5 operations (quick: strided, thorough: complete) over a 35-operation alphabet x interactive/non-interactive x 3 sets of initially ignored signals, plus random histories of <=14 operations; after each operation the disposition installed in the simulated process for each of 9 signals must equal max(internal, user/inherited), set_action must fail exactly in the documented cases, take_caught_signal must yield each trapped delivery exactly once. Scripts: 40k (quick) / 2M (thorough) with `kill -s USR1 $$` at every position or SIGUSR1 raised by the scheduler before a generated step: exactly one trap execution, at a command boundary, seeing and preserving $?. Bounded. Chain driver additions: deliveries that arrive while a multi-command pipeline runs, steps written on one line (one list) instead of one per line, an action that forks a subshell while another signal is pending (no action may run in the child), and an action that sets the other signal's trap again while its delivery is pending (the delivery must not be forgotten).",
+    text="Exploration: every history of <=5 operations (quick: strided, thorough: complete) over a 35-operation alphabet x interactive/non-interactive x 3 sets of initially ignored signals, plus random histories of <=14 operations; after each operation the disposition installed in the simulated process for each of 9 signals must equal max(internal, user/inherited), set_action must fail exactly in the documented cases, take_caught_signal must yield each trapped delivery exactly once. Scripts: 40k (quick) / 2M (thorough) with `kill -s USR1 $$` at every position or SIGUSR1 raised by the scheduler before a generated step: exactly one trap execution, at a command boundary, seeing and preserving $?. Bounded. Chain driver additions: deliveries that arrive while a multi-command pipeline runs, steps written on one line (one list) instead of one per line, an action that forks a subshell while another signal is pending (no action may run in the child), and an action that sets the other signal's trap again while its delivery is pending (the delivery must not be forgotten). The delivery driver also raises a SIGCHLD in the same instant as the trapped signal while the shell is blocked in `wait`.",
     note="Trusted: the reference merge in harness/src/props/c11.rs, the scheduler's asynchronous raise (only when the process currently catches the signal). Deliveries are also made to an interactive shell that reads its script through a pipe in generated chunks, so that the `read` built-in can be blocked when the signal arrives. A third family (chain) covers a signal delivered while another action runs, two signals pending at one boundary, an action that returns from the enclosing function, and delivery by the last command. A delivery made while the shell is blocked inside the `wait` built-in (child held by a probe until after the wait; signal raised by the scheduler when the shell task is blocked) must interrupt it: status > 128, action exactly once before the next command. Terminal/job-control stoppers are exercised at API level only.",
     design="4/C11"),
  "C12": dict(
@@ -74,22 +74,22 @@ CHECKS = {
     design="4/C12"),
  "C13": dict(
     technique="property-based testing with an owned scheduler: proptest race-free programs x (depth-first enumeration of scheduler choice vectors + seeded schedules) with preemption hooks, compared with a reference model; process table inspected at exit",
-    text="Exploration: random race-free programs (pipelines, async lists, wait/wait PID, subshells, command substitutions, pipefail, pipelines whose last stage exits without reading while the writers hold more than the pipes can buffer), each run under FIFO, a DFS over the scheduler's choice vectors up to a budget and seeded random schedules, with preemption points before every wait/read/write; per-process traces, status, stderr, sink data must equal the reference model under every schedule, no deadlock, every child terminated and reaped. Bounded; liveness only as 'no explored schedule deadlocks'.",
+    text="Exploration: random race-free programs (pipelines, async lists, wait/wait PID, subshells, command substitutions, pipefail, pipelines whose last stage exits without reading while the writers hold more than the pipes can buffer), each run under FIFO, a DFS over the scheduler's choice vectors up to a budget and seeded random schedules, with preemption points before every wait/read/write; per-process traces, status, stderr, sink data must equal the reference model under every schedule, no deadlock, every child terminated and reaped. Bounded; liveness only as 'no explored schedule deadlocks'. Scenario sequences line up what independent random commands rarely do: several failing components under pipefail, statuses asked for after `wait` collected the jobs or asked for twice, `wait` with several operands (live, collected, foreign), subshells that must die of the signal that killed their last command (trapped or inherited as ignored), an asynchronous list that resets its SIGINT trap.",
     note="Trusted: harness scheduler (vsys.rs), the verif-hooks preemption points in yash-env, the small reference model in c13.rs. Interleavings finer than system-call boundaries and the real OS scheduler are not explored.",
     design="4/C13"),
  "C14": dict(
     technique="property-based testing with an owned scheduler: payload sizes around every pipe-buffer boundary x shapes x schedules (grid + proptest scripted schedules + DFS on small transfers); round-trip oracle on the bytes",
-    text="Exploration: a grid of 19 boundary sizes x 4 trailing-newline counts x 8 shapes x 6 sets of standard descriptors closed beforehand x 16 (quick) / 200 (thorough) schedules, random sizes up to 4x pipe capacity with shrinkable scripted schedules, and a depth-first enumeration of schedules for four small transfers; received bytes / $( ) value / here-document body must equal what was produced. Bounded.",
+    text="Exploration: a grid of 19 boundary sizes x 4 trailing-newline counts x 8 shapes x 6 sets of standard descriptors closed beforehand x 16 (quick) / 200 (thorough) schedules, random sizes up to 4x pipe capacity with shrinkable scripted schedules, and a depth-first enumeration of schedules for four small transfers; received bytes / $( ) value / here-document body must equal what was produced. Bounded. Payloads also come with white space of six kinds before (and a blank between) the trailing newlines; read loops (`gen | while IFS= read -r`, and the loop on a standard input that a writer fills in chunks of 1-7 bytes) must pass every line through.",
     note="Trusted: probe built-ins gen/cat/sink, harness scheduler, preemption hooks. Only the simulated pipe implementation (PIPE_BUF 512, PIPE_SIZE 1024) is exercised.",
     design="4/C14"),
  "C17": dict(
     technique="property-based testing / differential: exhaustive alias tables x line templates; the real parser with the table vs the real parser without aliases on the harness' textual substitution (reference tokenizer + command-position model); look-up counter as termination oracle; second parse with newly allocated alias definitions on every look-up; 10% executed; runtime driver for aliases whose multi-line value changes the alias table",
-    text="Exploration: every alias table over 3 (quick) / 4 (thorough) names x 22 value shapes (other names, trailing blank, reserved words, operators, redirections, assignments, quoted, empty, self-reference, newline) x 44 / 120 command-line templates; printed parse of L with table T must equal printed parse of the hand-substituted L' (or both syntax errors); more than 10 000 alias look-ups = non-termination; a sample is executed and traces compared; every substituting case is parsed again with a glossary that hands out a new definition object per look-up (same result required); 120 scripts with a two-line alias value whose first line re-defines / removes an alias used on its second line are executed and compared with the by-hand reading. Bounded.",
+    text="Exploration: every alias table over 3 (quick) / 4 (thorough) names x 22 value shapes (other names, trailing blank, reserved words, operators, redirections, assignments, quoted, empty, self-reference, newline) x 44 / 120 command-line templates; printed parse of L with table T must equal printed parse of the hand-substituted L' (or both syntax errors); more than 10 000 alias look-ups = non-termination; a sample is executed and traces compared; every substituting case is parsed again with a glossary that hands out a new definition object per look-up (same result required); 120 scripts with a two-line alias value whose first line re-defines / removes an alias used on its second line are executed and compared with the by-hand reading. Bounded. Lines include the word after `command`; values include a loop header ending in a blank and `do` after a newline.",
     note="Trusted: the substitution model in harness/src/props/c17.rs and the alias-free parser (itself judged by C06). Global aliases are checked at parser API level only (yash-rs has no alias -g).",
     design="4/C17"),
  "C18": dict(
     technique="property-based testing / metamorphic: proptest scripts fed as -c string, script file, stdin file and stdin pipe written in generated chunk sizes under generated schedules; compared with a reference line-at-a-time interpretation",
-    text="Exploration: random scripts (alias definitions and uses, read consuming following lines, multi-line commands, here-documents, eval/source of multi-line text, planted syntax errors, offset probes, comments holding arbitrary bytes incl. stray and truncated UTF-8 sequences right before the newline) run in four feeding modes, the pipe optionally inherited non-blocking; probe traces, read values, here-document data, status and (for seekable stdin) the descriptor offset after each command must equal the reference and hence each other, and fd 0 must be in blocking mode whenever a command runs. Bounded. A fifth input mode gives the script as a file operand naming a FIFO that a writer process fills in the generated chunks.",
+    text="Exploration: random scripts (alias definitions and uses, read consuming following lines, multi-line commands, here-documents, eval/source of multi-line text, planted syntax errors, offset probes, comments holding arbitrary bytes incl. stray and truncated UTF-8 sequences right before the newline) run in four feeding modes, the pipe optionally inherited non-blocking; probe traces, read values, here-document data, status and (for seekable stdin) the descriptor offset after each command must equal the reference and hence each other, and fd 0 must be in blocking mode whenever a command runs. Bounded. A fifth input mode gives the script as a file operand naming a FIFO that a writer process fills in the generated chunks. Items also include a here-document followed on its command line by `pos` or `read`, the `portable` option switching how later lines (and later lines of an alias value) are parsed, and `exec <file` while the commands come from standard input.",
     note="Trusted: the reference interpretation in harness/src/props/c18.rs, the helper process that feeds the pipe (vsys.rs). The pipe feeder yields between chunks so the scheduler interleaves reader and writer; the real OS is not used.",
     design="4/C18"),
  "C19": dict(
@@ -99,7 +99,7 @@ CHECKS = {
     design="4/C19"),
  "C20": dict(
     technique="property-based testing: exhaustive argument-vector enumeration + proptest vectors against a reference option parser, combinatorial equivalent-spelling groups for the shell command line, and a 222-entry built-in invocation catalogue rewritten into all documented spellings (metamorphic on output, status and state snapshot)",
-    text="Exploration: every vector of <=4 (quick) / <=5 (thorough) tokens from a 23-token alphabet x 9 option specifications x 8 modes compared with a reference parser of the utility syntax guidelines, random longer vectors, ~10k groups of equivalent spellings of the shell's own command line, and 6622 spellings + 1599 malformed variants of 222 catalogue invocations of 31 built-ins (identical stdout/stderr-emptiness/status/state across spellings; rejection without effect for malformed ones). Every rejected (malformed) invocation that leaves the shell running is also run with a redirection attached, which must be undone like any other effect.",
+    text="Exploration: every vector of <=4 (quick) / <=5 (thorough) tokens from a 23-token alphabet x 9 option specifications x 8 modes compared with a reference parser of the utility syntax guidelines, random longer vectors, ~10k groups of equivalent spellings of the shell's own command line, and 6622 spellings + 1599 malformed variants of 222 catalogue invocations of 31 built-ins (identical stdout/stderr-emptiness/status/state across spellings; rejection without effect for malformed ones). Every rejected (malformed) invocation that leaves the shell running is also run with a redirection attached, which must be undone like any other effect. A whole `while getopts` loop is compared over five spellings of one argument list; export / readonly / typeset arguments starting with two different signs must be rejected.",
     note="Trusted: the reference parser (c20a.rs), the catalogue and spelling generator (c20b.rs, derived from docs/src/builtins). Built-ins needing a terminal or stopped jobs are covered only by the malformed-variant check.",
     design="4/C20"),
 }
